@@ -183,6 +183,23 @@ def historyListsAll (v : OView) (offset : Nat) (rows afterVersion : Option Nat)
   let rows := match rows with | some n => n | none => all.length
   total == sel.length && recs == (sel.drop offset).take rows
 
+/-- `audit_exact` (concurrent runs): every acknowledged command is in the stored log exactly
+once or – if it had no effect, was vetoed by the pre-save listener or never reached the
+entity (`noRecord` lists those error kinds) – not at all; and every stored record after the
+init command belongs to an acknowledged command.  `acked` = (actor, result) per command; actors
+are unique per command in these runs. -/
+def auditExact (v : OView) (noRecord : List String) (acked : List (String × ORet)) : Bool :=
+  (acked.all fun (actor, ret) =>
+    let recs := v.cmds.filter (·.actor == actor)
+    match ret with
+    | .err k =>
+      if noRecord.contains k then recs.isEmpty
+      else recs.length == 1 && recs.all (fun c => c.effect == .err k || match c.effect with | .err k' => k' == k | _ => false)
+    | .ok ver _ =>
+      recs.isEmpty ||
+      (recs.length == 1 && recs.all fun c => c.key + 1 == ver && match c.effect with | .ok _ => true | _ => false)) &&
+  ((v.cmds.drop 1).all fun c => acked.any (·.1 == c.actor))
+
 /-! ### the same for the WAL store -/
 
 structure WRender (T : Wal.WalT) where
